@@ -428,6 +428,27 @@ end Hecs.WorldJudge
 namespace Hecs.WorldJudge
 open Hecs Hecs.Proto
 
+def hasDup (l : List Nat) : Bool := l.eraseDups.length != l.length
+
+/-- out-of-contract calls, which hecs rejects by panicking before touching anything: a bundle (or a
+removed bundle type) naming a component type twice; `spawn_column_batch_at` with repeated ids -/
+def outOfContract (lhs : String) : Bool :=
+  let toks := (lhs.trimAscii.toString.splitOn " ").filter (· ≠ "")
+  match toks with
+  | verb :: _ :: args =>
+    let b := (((field args "b").bind comps?).getD []).map (·.1)
+    let ts := ((field args "ts").bind nats?).getD []
+    match verb with
+    | "spawn" | "spawn_at" | "insert" => hasDup b
+    | "spawn_batch" | "reserve" => hasDup ts
+    | "remove" => hasDup ts
+    | "exchange" => hasDup ts || hasDup b
+    | "spawn_cb_at" | "pspawn_at" =>
+      let hs := ((field args "hs").bind entities?).getD []
+      hasDup (hs.map (·.id))
+    | _ => false
+  | _ => false
+
 /-- bring the implementation's answer into the canonical form the model is rendered in -/
 def normRhs (lhs rhs : String) : String :=
   let toks := (lhs.trimAscii.toString.splitOn " ").filter (· ≠ "")
@@ -443,6 +464,21 @@ def normRhs (lhs rhs : String) : String :=
 /-- returns the new state and the model's rendering of the right-hand side, or an error -/
 def stepLine (m : MState) (lhs : String) : Except String (MState × String) :=
   let toks := (lhs.trimAscii.toString.splitOn " ").filter (· ≠ "")
+  if outOfContract lhs && !(lhs.startsWith "spawn_cb_at") && !(lhs.startsWith "pspawn_at") then
+    -- the duplicate check of `insert`/`exchange` runs after the entity lookup: a handle that is not
+    -- live is answered NoSuchEntity (bundle dropped intact) without reaching it
+    let early : Option (MState × String) :=
+      match toks with
+      | verb :: _ :: args =>
+        let dupTs := hasDup (((field args "ts").bind nats?).getD [])
+        if (verb == "insert" || (verb == "exchange" && !dupTs)) then
+          match stepLineW m.worlds lhs with
+          | .ok (ws, a) => if a.startsWith "nosuch" then some ({ m with worlds := ws }, a) else none
+          | .error _ => none
+        else none
+      | _ => none
+    .ok (early.getD (m, "panic"))
+  else
   match toks with
   | ["world", n] =>
     .ok ({ m with worlds := setW m.worlds n World.new,
